@@ -189,10 +189,21 @@ func runOnce(c Case, seed uint64) (outcome, error) {
 			pctx, pcancel = context.WithDeadline(context.Background(), time.Now().Add(-time.Millisecond))
 		}
 		var perr error
-		if withSession {
-			_, perr = e.sess.GetDeviceID(pctx)
-		} else {
-			_, perr = e.t.GetSystemGUID(pctx)
+		pdone := make(chan struct{})
+		go func() {
+			defer close(pdone)
+			if withSession {
+				_, perr = e.sess.GetDeviceID(pctx)
+			} else {
+				_, perr = e.t.GetSystemGUID(pctx)
+			}
+		}()
+		select {
+		case <-pdone:
+		case <-time.After(c.T + c.T/4 + 5*time.Second):
+			// the earlier call is itself a blocking call that outlived its context
+			pcancel()
+			return outcome{hung: true, reached: true, elapsed: c.T + c.T/4 + 5*time.Second}, nil
 		}
 		pcancel()
 		if perr == nil {
